@@ -91,8 +91,53 @@ pub struct S1Scenario {
     /// before the checker is told to run to completion
     #[serde(default)]
     pub pre_requests: Vec<u16>,
+    /// 0 = `join()`, 1 = `join_and_report(reporter)`, 2 = `report(reporter)` followed by `join()`
+    #[serde(default)]
+    pub join_mode: u8,
+    /// reporting period of the harness reporter (virtual ms)
+    #[serde(default)]
+    pub report_delay_ms: u16,
     pub sched: SchedSpec,
 }
+
+/// A `Reporter` that records what it is told (the report channel of `report`/`join_and_report`).
+#[derive(Default)]
+pub struct HReporter {
+    pub delay_ms: u16,
+    pub calls: usize,
+    pub done_calls: usize,
+    pub calls_after_done: usize,
+    pub last_done: Option<(usize, usize, usize)>,
+    /// name -> (classification, path)
+    pub discoveries: Option<BTreeMap<String, (String, Vec<(u16, Option<u16>)>)>>,
+}
+impl stateright::report::Reporter<GModel> for HReporter {
+    fn report_checking(&mut self, d: stateright::report::ReportData) {
+        self.calls += 1;
+        if self.done_calls > 0 {
+            self.calls_after_done += 1;
+        }
+        if d.done {
+            self.done_calls += 1;
+            self.last_done = Some((d.total_states, d.unique_states, d.max_depth));
+        }
+    }
+    fn report_discoveries(&mut self, discoveries: BTreeMap<&'static str, stateright::report::ReportDiscovery<GModel>>) {
+        self.discoveries = Some(discoveries.into_iter().map(|(k, v)| (k.to_string(), (v.classification.to_string(), path_to_vec(v.path)))).collect());
+    }
+    fn delay(&self) -> Duration {
+        Duration::from_millis(self.delay_ms.max(1) as u64)
+    }
+}
+#[derive(Clone, Debug, Serialize, Default)]
+pub struct ReportObs {
+    pub calls: usize,
+    pub done_calls: usize,
+    pub calls_after_done: usize,
+    pub last_done: Option<(usize, usize, usize)>,
+    pub discoveries: Option<BTreeMap<String, (String, Vec<(u16, Option<u16>)>)>>,
+}
+thread_local!(static REPORT_OBS: std::cell::RefCell<Option<ReportObs>> = const { std::cell::RefCell::new(None) });
 
 #[derive(Clone, Debug, Serialize)]
 pub struct Visit {
@@ -135,6 +180,8 @@ pub struct Obs {
     pub assert_ok_before_done: bool,
     /// states generated as counted by the model (in-boundary initial states + in-boundary successors, with repeats)
     pub model_generated: usize,
+    /// what the reporter was told (join modes 1 and 2)
+    pub report: Option<ReportObs>,
 }
 
 #[derive(Clone)]
@@ -240,7 +287,7 @@ fn early_assert<C: Checker<GModel>>(checker: &C, flag: &std::cell::Cell<bool>) {
 
 thread_local!(static EARLY_ASSERT: std::cell::Cell<bool> = const { std::cell::Cell::new(false) });
 
-fn drive<C: Checker<GModel>>(
+fn drive<C: Checker<GModel> + Send + Sync>(
     sc: &S1Scenario,
     sched: &Sched,
     checker: C,
@@ -281,7 +328,21 @@ fn drive<C: Checker<GModel>>(
         return (JoinOutcome::Dropped, None, None);
     }
     // join consumes the checker; on a panic inside join the checker is lost
-    let joined = catch_unwind(AssertUnwindSafe(move || checker.join()));
+    REPORT_OBS.with(|r| *r.borrow_mut() = None);
+    let mode = sc.join_mode;
+    let delay_ms = sc.report_delay_ms;
+    let joined = catch_unwind(AssertUnwindSafe(move || {
+        if mode == 0 {
+            return checker.join();
+        }
+        let mut rep = HReporter { delay_ms, ..Default::default() };
+        let r = catch_unwind(AssertUnwindSafe(|| if mode == 1 { checker.join_and_report(&mut rep) } else { checker.report(&mut rep).join() }));
+        REPORT_OBS.with(|o| *o.borrow_mut() = Some(ReportObs { calls: rep.calls, done_calls: rep.done_calls, calls_after_done: rep.calls_after_done, last_done: rep.last_done, discoveries: rep.discoveries.take() }));
+        match r {
+            Ok(c) => c,
+            Err(e) => std::panic::resume_unwind(e),
+        }
+    }));
     match joined {
         Ok(c) => {
             let at = (sched.wall_ns(), sched.steps());
@@ -382,6 +443,7 @@ pub fn run_s1(sc: &S1Scenario) -> Obs {
         spawn_panic,
         assert_ok_before_done: EARLY_ASSERT.with(|f| f.get()),
         model_generated: model.generated.load(std::sync::atomic::Ordering::Relaxed),
+        report: REPORT_OBS.with(|r| r.borrow_mut().take()),
         panic_fired: sc.graph.panic.is_some() && !model.panic_armed.load(std::sync::atomic::Ordering::SeqCst),
     }
 }
